@@ -38,7 +38,10 @@ def build(u):
     u.use_overlay('u5_encode.ctr')
     common_types(u)
     u.spec('vlq.rs')
+    u.prelude('bitvec_stub.rs')
     u.spec('mappings_enc.rs')
+    u.spec('bits.rs')
+    u.spec('rmi_enc.rs')
     f = u.get_fn('src/vlq.rs', 'encode_vlq')
     u.import_fn(f, 'vlq::encode_vlq', 'u1_vlq.ctr', 'u1_vlq')
 
@@ -49,3 +52,23 @@ def build(u):
     u.count('R-shim-call', f.rewrite(r'\.enumerate\(\)', '.verif_enumerate()', expect=1))
     u.count('R-continue', f.flag_continues())
     u.emit_fn(f, 'encoder::serialize_mappings')
+
+    # R-unnest: the helper nested in encode_rmi is lifted to the top level (Verus has no nested fn items)
+    f = u.get_fn(E, 'encode_byte', outer='encode_rmi')
+    u.count('R-unnest')
+    u.emit_fn(f, 'encoder::encode_rmi::encode_byte')
+
+    f = u.get_fn(E, 'encode_rmi')
+    # drop the nested fn item from the body (it is emitted above)
+    n = f.rewrite(r'(?s)\n    fn encode_byte\(b: u8\) -> u8 \{.*?\n    \}\n', '\n', expect=1)
+    u.count('R-shim-call', f.rewrite(r'\.view_bits::<Lsb0>\(\)', '.view_bits::<Lsb0>()'))
+    u.count('R-shim-call', f.rewrite(r'\.enumerate\(\)', '.verif_enumerate()', expect=1))
+    u.count('R-shim-call', f.rewrite(r'&([a-z_]+)\[\.\.(.+?)\];', r'\1.verif_prefix(\2);', expect=1))
+    u.emit_fn(f, 'encoder::encode_rmi')
+
+    f = u.get_fn(E, 'serialize_range_mappings')
+    u.count('R-shim-call', f.rewrite(r'\.enumerate\(\)', '.verif_enumerate()', expect=1))
+    u.count('R-continue', f.guard_continues())
+    u.count('R-shim-call', f.rewrite(r'(?s)let ([a-z_]+) = ([a-z_]+)\.view_bits_mut::<Lsb0>\(\);\s*\1\.set\(([a-z_]+), (true|false)\);', r'verif_bytes_set_bit(&mut \2, \3, \4);', expect=1))
+    u.count('R-shim-call', f.rewrite(r'String::from_utf8\(([a-z_]+)\)\.expect\("[^"]*"\)', r'verif_string_from_utf8_ascii(\1)', expect=1))
+    u.emit_fn(f, 'encoder::serialize_range_mappings')
